@@ -256,6 +256,14 @@ let run_hist hfn zh (tys : string) (vals : string) (route : string) (ops : strin
        let hd = List.nth m.hm.m_handles (int_of_string h) in
        m.snaps <- (hd.h_back, habs m.hm.m_store hd.h_back) :: m.snaps;
        add key "OK"
+     | L [A "rebuild"; A h] ->
+       (* the tree is rebuilt node by node with its memos (a loader): nothing changes *)
+       let hi = int_of_string h in
+       (match List.nth_opt m.hm.m_handles hi with
+        | Some ha when ha.h_hook = None
+                    && (match ha.h_ty with TVector _ | TList _ | TContainer _ | TUnion _ | TBitvector _ | TBitlist _ -> true | _ -> false) ->
+          add key "OK"
+        | _ -> add key "ERR")
      | L [A "summ"; A _; A _] -> add key "OK"  (* a summarised copy is made elsewhere: nothing changes *)
      | L [A "reinit"] | L [A "reinitx"] -> add key "OK"
      | L [A "memo"] -> add key (if check_memos hfn m then "OK" else "STALE")
@@ -404,5 +412,18 @@ let c11 hfn zh (tree : string) (op : string) (g : string) (expand : string) (vtr
          | Leaf c -> "L:" ^ hb c
          | Pair (l, r) -> "P(" ^ plain l ^ "," ^ plain r ^ ")" in
        Printf.sprintf "res=OK root=%s shape=%s spec_root=%s" (hb (root_of hfn n')) (plain n') orig_root
+     | Err -> "res=ERR" | Panic -> "res=PANIC")
+  | "filld" | "filll" | "fillc" ->
+    let bottom = habs h a in
+    let d = nat_of_int (int_of_n g) in
+    let len = match parse_sexp vtree with
+      | L [A "L"; A hex] when String.length hex >= 2 -> n_of_int (int_of_string ("0x" ^ String.sub hex 0 2))
+      | _ -> N0 in
+    let r = match op with
+      | "filld" -> OK (fill_to_depth bottom d)
+      | "filll" -> fill_to_length zh bottom d len
+      | _ -> fill_to_contents zh (List.init (int_of_n len) (fun _ -> bottom)) d in
+    (match r with
+     | OK n' -> let rt = hb (root_of hfn n') in Printf.sprintf "res=OK memo=1 root=%s memo2=1 raw=%s" rt rt
      | Err -> "res=ERR" | Panic -> "res=PANIC")
   | _ -> failwith "bad c11 op"
